@@ -10,7 +10,7 @@ LEVEL = "exploration"
 RULE = (
     "case = history of 1..12 full handshakes on the simulated network; each step connects to a host (inside / outside / "
     "look-alike / subdomain of previously named domains, mixed case) whose response carries 0..2 Set-Cookie lines with "
-    "one Domain (with/without leading dot, upper/lower case) or none, plus an optional caller cookie and an optional Host header override (host= option). The process-wide "
+    "one Domain (with/without leading dot, upper/lower case) or none, optionally preceded by a redirect hop (3xx from another host, itself carrying Set-Cookie lines), plus an optional caller cookie and an optional Host header override (host= option). The process-wide "
     "jar is cleared at the start of each history. Non-trivial: history with >= 2 cookie-setting responses and a "
     "look-alike host, a mixed-case domain or an overwritten value. Distinct = the history."
 )
@@ -43,37 +43,30 @@ def run_case(case):
     model = {}  # domain -> {name: value}
     steps = case["steps"]
     setters, lookalike_used, mixed, overwritten, dontcare = 0, False, False, False, 0
+    redirected_setter = False
     for i, stp in enumerate(steps):
-        host = stp["host"]
-        hl = host.lower()
-        # expected Cookie header
-        names_seen, pairs, ambiguous = {}, [], False
-        for d, ck in model.items():
-            if covers(d, hl):
-                for n, v in ck.items():
-                    if n in names_seen:
-                        ambiguous = True
-                    names_seen[n] = d
-                    pairs.append((n, v))
-        pairs.sort()
-        parts = ["; ".join(f"{n}={v}" for n, v in pairs)] if pairs else []
-        if stp.get("cookie"):
-            parts.append(stp["cookie"])
-        want = "; ".join(parts) if parts else None
-        if any((hl.endswith(d) and not covers(d, hl)) for d in model):
-            lookalike_used = True
+        # a step is one connect() call: optionally a first hop (another host answering 302 + Set-Cookie) and the final handshake
+        hops = ([dict(stp["via"], cookie=stp.get("cookie"))] if stp.get("via") else []) + [stp]
         net = simnet.Net()
-        extra = []
-        sets = stp.get("set") or []
-        for j, (n, v) in enumerate(sets):
-            attr = ""
-            if stp.get("domain") and (j == 0 or stp.get("domain_on") == "all"):
-                attr = f"; Domain={stp['domain']}"
-            extra.append(f"Set-Cookie: {n}={v}{attr}" + ("; Path=/" if stp.get("path") else ""))
         peers = []
+        responses = []
+        for hi, hop in enumerate(hops):
+            extra = []
+            sets = hop.get("set") or []
+            for j, (n, v) in enumerate(sets):
+                attr = ""
+                if hop.get("domain") and (j == 0 or hop.get("domain_on") == "all"):
+                    attr = f"; Domain={hop['domain']}"
+                extra.append(f"Set-Cookie: {n}={v}{attr}" + ("; Path=/" if hop.get("path") else ""))
+            if hi < len(hops) - 1:
+                head = f"HTTP/1.1 {hop.get('status', 302)} Found\r\nLocation: ws://{hops[hi + 1]['host']}/c\r\n" + "".join(x + "\r\n" for x in extra) + "\r\n"
+                responses.append(lambda req, head=head: head.encode())
+            else:
+                responses.append(lambda req, extra=extra: simnet.ok_response(req, extra=extra))
 
-        def factory(sock, addr, extra=extra):
-            p = simnet.HttpPeer(lambda req, s, n_: [simnet.ok_response(req, extra=extra)])
+        def factory(sock, addr):
+            k = len(peers)
+            p = simnet.HttpPeer(lambda req, s, n_, k=k: [responses[min(k, len(responses) - 1)](req)])
             peers.append(p)
             return p
 
@@ -86,51 +79,81 @@ def run_case(case):
         with net.installed():
             try:
                 ws = websocket.WebSocket()
-                ws.connect(f"ws://{host}/c", **kw)
+                ws.connect(f"ws://{hops[0]['host']}/c", **kw)
             except Exception as e:
                 obs.fail(exc_bucket("history|connect-raised", e), f"step {i}: {type(e).__name__}: {e}")
                 break
-        try:
-            req = rm.parse_http_request(peers[0].requests[0])
-        except ValueError as e:
-            obs.fail("history|malformed-request", f"step {i}: {e}")
+        if len(peers) != len(hops):
+            obs.fail("history|hops", f"step {i}: {len(peers)} connections for {len(hops)} hops")
             break
-        got = rm.header_values(req, "Cookie")
-        if ambiguous:
-            dontcare += 1
-        else:
-            if len(got) > 1:
-                obs.fail("cookie|duplicated-field", f"step {i}: {got}")
-            g = got[0] if got else None
-            if g != want:
-                gset = set((g or "").split("; ")) - {""}
-                wset = set((want or "").split("; ")) - {""}
-                leaked = gset - wset
-                missing = wset - gset
-                if leaked:
-                    foreign = [d for d, ck in model.items() if not covers(d, hl) and any(f"{n}={v}" in leaked for n, v in ck.items())]
-                    kind = "leaked-to-foreign-host" if foreign else "unexpected-cookie"
-                    if foreign and any(hl.endswith(d) for d in foreign):
-                        kind = "leaked-to-lookalike-host"
-                elif missing:
-                    kind = "missing-cookie"
-                else:
-                    kind = "order-or-format"
-                obs.fail(f"cookie|{kind}", f"step {i} host={host}: Cookie {g!r}, model {want!r}; jar model={model}")
-        # apply the response to the model
-        if sets and stp.get("domain"):
-            d = stp["domain"].lower().lstrip(".")
-            if d != stp["domain"].lstrip("."):
-                mixed = True
-            cur = model.setdefault(d, {})
-            for n, v in sets:
-                if n in cur and cur[n] != v:
-                    overwritten = True
-                cur[n] = v
-            setters += 1
+        stop = False
+        for hi, hop in enumerate(hops):
+            host = hop["host"]
+            hl = host.lower()
+            # expected Cookie header (from the model as it stands before this hop's response)
+            names_seen, pairs, ambiguous = {}, [], False
+            for d, ck in model.items():
+                if covers(d, hl):
+                    for n, v in ck.items():
+                        if n in names_seen:
+                            ambiguous = True
+                        names_seen[n] = d
+                        pairs.append((n, v))
+            pairs.sort()
+            parts = ["; ".join(f"{n}={v}" for n, v in pairs)] if pairs else []
+            if stp.get("cookie"):
+                parts.append(stp["cookie"])
+            want = "; ".join(parts) if parts else None
+            if any((hl.endswith(d) and not covers(d, hl)) for d in model):
+                lookalike_used = True
+            where = f"step {i}" + (f" hop {hi}" if len(hops) > 1 else "")
+            try:
+                req = rm.parse_http_request(peers[hi].requests[0])
+            except (ValueError, IndexError) as e:
+                obs.fail("history|malformed-request", f"{where}: {e}")
+                stop = True
+                break
+            got = rm.header_values(req, "Cookie")
+            if ambiguous:
+                dontcare += 1
+            else:
+                if len(got) > 1:
+                    obs.fail("cookie|duplicated-field", f"{where}: {got}")
+                g = got[0] if got else None
+                if g != want:
+                    gset = set((g or "").split("; ")) - {""}
+                    wset = set((want or "").split("; ")) - {""}
+                    leaked = gset - wset
+                    missing = wset - gset
+                    if leaked:
+                        foreign = [d for d, ck in model.items() if not covers(d, hl) and any(f"{n}={v}" in leaked for n, v in ck.items())]
+                        kind = "leaked-to-foreign-host" if foreign else "unexpected-cookie"
+                        if foreign and any(hl.endswith(d) for d in foreign):
+                            kind = "leaked-to-lookalike-host"
+                    elif missing:
+                        kind = "missing-cookie"
+                    else:
+                        kind = "order-or-format"
+                    obs.fail(f"cookie|{kind}", f"{where} host={host}: Cookie {g!r}, model {want!r}; jar model={model}")
+            # apply this hop's response to the model
+            sets = hop.get("set") or []
+            if sets and hop.get("domain"):
+                d = hop["domain"].lower().lstrip(".")
+                if d != hop["domain"].lstrip("."):
+                    mixed = True
+                cur = model.setdefault(d, {})
+                for n, v in sets:
+                    if n in cur and cur[n] != v:
+                        overwritten = True
+                    cur[n] = v
+                setters += 1
+                if hi < len(hops) - 1:
+                    redirected_setter = True
+        if stop:
+            break
     nt = setters >= 2 and (lookalike_used or mixed or overwritten)
     obs.cls = (f"steps:{min(len(steps), 12)}", f"setters:{min(setters, 4)}", f"lookalike:{int(lookalike_used)}", f"mixedcase:{int(mixed)}",
-               f"overwrite:{int(overwritten)}", f"dontcare_steps:{min(dontcare, 3)}")
+               f"overwrite:{int(overwritten)}", f"dontcare_steps:{min(dontcare, 3)}", f"cookie_set_by_redirect:{int(redirected_setter)}")
     obs.nt = repr(steps) if nt else None
     return obs
 
@@ -144,6 +167,10 @@ step = st.fixed_dictionaries(
         "cookie": st.sampled_from(["mine=1", "x=y; w=z"]),
         "path": st.booleans(),
         "host_opt": st.sampled_from(["example.com", "sub.example.com", "other.test", "evil.test"]),
+        # the connection first goes to another host, which answers with a redirect (a handshake response, too) that may set cookies
+        "via": st.fixed_dictionaries({"host": st.sampled_from(HOSTS), "status": st.sampled_from([301, 302, 303, 307, 308])},
+                                     optional={"set": st.lists(st.tuples(st.sampled_from(NAMES), st.text(alphabet="abc123XYZ", min_size=1, max_size=4)), min_size=1, max_size=2, unique_by=lambda t: t[0]).map(lambda l: [list(t) for t in l]),
+                                               "domain": st.sampled_from(DOMAINS), "domain_on": st.sampled_from(["first", "all"])}),
     },
 )
 cases = st.fixed_dictionaries({"steps": st.lists(step, min_size=1, max_size=12)})
